@@ -12,6 +12,7 @@
    parses every event the real encoders produce. *)
 From Coq Require Import ZArith Bool List.
 From ExaV Require Import gen.Gen_JsonKeys model.Model_Json proofs.Proofs_Json.
+From ExaV Require Import model.Model_JsonEvent proofs.Proofs_JsonEvent proofs.Proofs_JsonNeighbor proofs.Proofs_JsonEnvelope.
 Import ListNotations.
 Open Scope Z_scope.
 
@@ -115,6 +116,155 @@ Theorem C13_text_ascii_latin1_iff :
   ascii_encodable (oneline (in_table oneline_kept_latin1) latin1_range) = true <-> oneline_kept_latin1 = [].
 Proof. exact regenerated_text_ascii_iff. Qed.
 
+(* ---- JSON._update (Model_JsonEvent.update_message): announces grouped by family then next hop, withdraws by family,
+   the attribute object, the End-of-RIB and the empty cases, every comma.  NLRI json, the attribute content and the
+   eor member are fragments (already rendered text); family names and next hop strings are interpolated verbatim by
+   the code, so they must need no escaping (they are ExaBGP's own words and printed IP addresses).
+   For ANY number of families / next hops / routes: *)
+
+(* if every fragment is well-formed single-line JSON, the whole message is *)
+Theorem C13_update_event_wf : forall u,
+  (forall m, u_eor u = Some m -> wf_member m = true /\ single_line m = true) ->
+  Forall (fun a => safe_key (fst a) = true /\ (safe_key (fst (snd a)) = true
+                   /\ (wf_json (snd (snd a)) = true /\ single_line (snd (snd a)) = true))) (u_ann u) ->
+  Forall (fun w => safe_key (fst w) = true /\ (wf_json (snd w) = true /\ single_line (snd w) = true)) (u_wd u) ->
+  (forall c, u_attr u = Some c -> wf_json (braces c) = true /\ single_line (braces c) = true) ->
+  wf_json (update_message u) = true /\ single_line (update_message u) = true.
+Proof. exact update_message_ok. Qed.
+
+(* what the message is: one object { "update": { members } } whose members are, in this order and each at most
+   once, "attribute", "announce", "withdraw" - nothing else, no dangling separator *)
+Theorem C13_update_event_shape : forall u, u_eor u = None ->
+  update_message u = obj_of_members [kv_pair k_update (obj_of_members (update_members u))].
+Proof. exact update_message_shape. Qed.
+
+(* the grouping introduces no duplicate key at any level: families are distinct under "announce" and under
+   "withdraw", next hops are distinct inside every family, and the key found in each rendered member is that
+   family / next hop; the update object holds each of its (at most three) keys once *)
+Theorem C13_update_grouping_no_duplicate_keys : forall u,
+  Forall ann_ok (u_ann u) -> Forall wd_ok (u_wd u) ->
+  NoDup (map fst (group (u_ann u)))
+  /\ map member_key (add_members u) = map (fun f => Some (fst f)) (group (u_ann u))
+  /\ (forall f, In f (group (u_ann u)) ->
+        NoDup (map fst (group (snd f)))
+        /\ map member_key (map nh_member (group (snd f))) = map (fun g => Some (fst g)) (group (snd f)))
+  /\ NoDup (map fst (group (u_wd u)))
+  /\ map member_key (remove_members u) = map (fun f => Some (fst f)) (group (u_wd u))
+  /\ NoDup (map member_key (update_members u))
+  /\ (forall k, In k (map member_key (update_members u)) -> In k [Some k_attribute; Some k_announce; Some k_withdraw]).
+Proof. exact update_keys. Qed.
+
+(* dict.setdefault semantics: whatever the input, grouped keys are pairwise distinct *)
+Theorem C13_group_keys_distinct : forall (V : Type) (l : list (list Z * V)), NoDup (map fst (group l)).
+Proof. exact (@group_NoDup). Qed.
+
+(* ---- the documented envelope (JSON._header around JSON._neighbor around JSON._kv), for every event about a neighbor:
+   the line is exactly one object whose keys are exabgp, time, host, pid, ppid, counter, type, [header], [body],
+   neighbor - each once - and the neighbor object's keys are address, asn, [router-id], [direction] followed by the
+   keys of the event's own content.  Strings the code interpolates verbatim (version, host name, type, addresses,
+   router-id, direction, hex of header / body) must need no escaping; values of the content are any well-formed fragments *)
+Theorem C13_event_envelope : forall e counter mtype hdr body p direction kvs,
+  env_ok e -> safe_key mtype = true -> opt_safe hdr -> opt_safe body ->
+  peer_ok p -> opt_safe direction -> Forall kv_ok kvs ->
+  neighbor_event e counter mtype hdr body p direction kvs
+    = obj_of_members (event_members e counter mtype hdr body p direction kvs)
+  /\ (wf_json (neighbor_event e counter mtype hdr body p direction kvs) = true
+      /\ single_line (neighbor_event e counter mtype hdr body p direction kvs) = true)
+  /\ map member_key (event_members e counter mtype hdr body p direction kvs)
+     = map Some (header_keys (Some counter) hdr body ++ [k_neighbor])
+  /\ map member_key (event_neighbor_members p direction kvs)
+     = map Some (neighbor_keys p direction ++ map fst kvs).
+Proof. exact neighbor_event_ok. Qed.
+
+Theorem C13_envelope_keys_distinct : forall counter hdr body extra,
+  In extra [k_neighbor; k_notification] -> dup_free (header_keys counter hdr body ++ [extra]) = true.
+Proof. exact header_keys_dup_free. Qed.
+
+Theorem C13_neighbor_keys_distinct : forall p direction (ks : list (list Z)),
+  NoDup ks -> (forall k, In k ks -> ~ In k [k_address; k_asn; k_router_id; k_direction]) ->
+  NoDup (neighbor_keys p direction ++ ks).
+Proof. exact neighbor_level_NoDup. Qed.
+
+(* the event without a neighbor (shutdown) *)
+Theorem C13_global_event_envelope : forall e mtype kvs,
+  env_ok e -> safe_key mtype = true -> Forall kv_ok kvs -> kvs <> [] ->
+  global_event e mtype kvs
+    = obj_of_members (header_pre e None mtype None None ++ map (fun kv => kv_pair (fst kv) (snd kv)) kvs)
+  /\ (wf_json (global_event e mtype kvs) = true /\ single_line (global_event e mtype kvs) = true)
+  /\ map member_key (header_pre e None mtype None None ++ map (fun kv => kv_pair (fst kv) (snd kv)) kvs)
+     = map Some (header_keys None None None ++ map fst kvs).
+Proof. exact global_event_ok. Qed.
+
+(* ---- event kinds.  down: the reason is ANY text *)
+Theorem C13_down_event : forall e counter p reason,
+  env_ok e -> peer_ok p ->
+  (wf_json (ev_down e counter p reason) = true /\ single_line (ev_down e counter p reason) = true)
+  /\ map member_key (event_members e counter t_state None None p None
+                       [(k_state, json_string [100; 111; 119; 110]); (k_reason, json_string reason)])
+     = map Some (header_keys (Some counter) None None ++ [k_neighbor])
+  /\ map member_key (event_neighbor_members p None [(k_state, json_string [100; 111; 119; 110]); (k_reason, json_string reason)])
+     = map Some (neighbor_keys p None ++ [k_state; k_reason]).
+Proof. exact ev_down_ok. Qed.
+
+(* notification: the hex data and the decoded message are ANY text *)
+Theorem C13_notification_event : forall e counter hdr body p direction code subcode hex text,
+  env_ok e -> opt_safe hdr -> opt_safe body -> peer_ok p -> safe_key direction = true ->
+  (wf_json (ev_notification e counter hdr body p direction code subcode hex text) = true
+   /\ single_line (ev_notification e counter hdr body p direction code subcode hex text) = true)
+  /\ map member_key (event_members e counter k_notification hdr body p (Some direction)
+                       [(k_notification, notification_object code subcode hex text)])
+     = map Some (header_keys (Some counter) hdr body ++ [k_neighbor])
+  /\ map member_key (event_neighbor_members p (Some direction) [(k_notification, notification_object code subcode hex text)])
+     = map Some (neighbor_keys p (Some direction) ++ [k_notification]).
+Proof. exact ev_notification_ok. Qed.
+
+Theorem C13_state_event : forall e counter mtype p word,
+  env_ok e -> safe_key mtype = true -> peer_ok p ->
+  (wf_json (ev_state e counter mtype p word) = true /\ single_line (ev_state e counter mtype p word) = true)
+  /\ map member_key (event_members e counter mtype None None p None [(k_state, json_string word)])
+     = map Some (header_keys (Some counter) None None ++ [k_neighbor])
+  /\ map member_key (event_neighbor_members p None [(k_state, json_string word)])
+     = map Some (neighbor_keys p None ++ [k_state]).
+Proof. exact ev_state_ok. Qed.
+
+Theorem C13_keepalive_event : forall e counter hdr body p direction,
+  env_ok e -> opt_safe hdr -> opt_safe body -> peer_ok p -> safe_key direction = true ->
+  (wf_json (ev_keepalive e counter hdr body p direction) = true /\ single_line (ev_keepalive e counter hdr body p direction) = true)
+  /\ map member_key (event_members e counter t_keepalive hdr body p (Some direction) [])
+     = map Some (header_keys (Some counter) hdr body ++ [k_neighbor])
+  /\ map member_key (event_neighbor_members p (Some direction) []) = map Some (neighbor_keys p (Some direction) ++ []).
+Proof. exact ev_keepalive_ok. Qed.
+
+(* the whole update event line: envelope + JSON._update + optional negotiated fragment *)
+Theorem C13_update_event_line : forall e counter hdr body p direction u negotiated,
+  env_ok e -> opt_safe hdr -> opt_safe body -> peer_ok p -> safe_key direction = true ->
+  (forall m, u_eor u = Some m -> member_ok m) ->
+  Forall ann_ok (u_ann u) -> Forall wd_ok (u_wd u) ->
+  (forall c, u_attr u = Some c -> frag_ok (braces c)) ->
+  (forall n, negotiated = Some n -> frag_ok n) ->
+  (wf_json (ev_update e counter hdr body p direction u negotiated) = true
+   /\ single_line (ev_update e counter hdr body p direction u negotiated) = true)
+  /\ map member_key (event_members e counter t_update hdr body p (Some direction) (update_kvs u negotiated))
+     = map Some (header_keys (Some counter) hdr body ++ [k_neighbor])
+  /\ map member_key (event_neighbor_members p (Some direction) (update_kvs u negotiated))
+     = map Some (neighbor_keys p (Some direction) ++ map fst (update_kvs u negotiated)).
+Proof. exact ev_update_ok. Qed.
+
+(* non-vacuity of the update theorems: two families, a next hop shared by two routes and reused in the other family,
+   a withdraw, attributes *)
+Example C13_update_example :
+  let r s := json_object [([110; 108; 114; 105], json_string s)] in
+  let v4 := [105; 112; 118; 52] in let v6 := [105; 112; 118; 54] in
+  let nh := [49; 46; 49; 46; 49; 46; 49] in let nh2 := [50; 46; 50; 46; 50; 46; 50] in
+  let u := mkUpd None [(v4, (nh, r [97])); (v6, (nh, r [98])); (v4, (nh2, r [99])); (v4, (nh, r [100]))]
+                 [(v6, r [101])] (Some (kv_pair [109; 101; 100] (json_int 5))) in
+  wf_json (update_message u) = true
+  /\ map fst (group (u_ann u)) = [v4; v6]
+  /\ map (fun f => map fst (group (snd f))) (group (u_ann u)) = [[nh; nh2]; [nh]]
+  /\ wf_json (update_message (mkUpd None [] [] (Some (kv_pair [109; 101; 100] (json_int 5))))) = true
+  /\ wf_json (update_message (mkUpd None [] [] None)) = true.
+Proof. vm_compute. repeat split. Qed.
+
 (* ---- non-vacuity: a hostile host name inside an envelope of two levels *)
 Example C13_example :
   let hostile := [97; 34; 125; 10; 92; 233; 128512; 0] in          (* a, quote, closing brace, LF, backslash, e-acute, U+1F600, NUL *)
@@ -141,3 +291,16 @@ Print Assumptions C13_text_no_control.
 Print Assumptions C13_text_ascii_partial.
 Print Assumptions C13_text_ascii_refuted.
 Print Assumptions C13_text_ascii_latin1_iff.
+Print Assumptions C13_update_event_wf.
+Print Assumptions C13_update_event_shape.
+Print Assumptions C13_update_grouping_no_duplicate_keys.
+Print Assumptions C13_group_keys_distinct.
+Print Assumptions C13_event_envelope.
+Print Assumptions C13_envelope_keys_distinct.
+Print Assumptions C13_neighbor_keys_distinct.
+Print Assumptions C13_global_event_envelope.
+Print Assumptions C13_down_event.
+Print Assumptions C13_notification_event.
+Print Assumptions C13_state_event.
+Print Assumptions C13_keepalive_event.
+Print Assumptions C13_update_event_line.
